@@ -213,16 +213,16 @@ pub fn run_once(program: &Program, prefix: &[u32]) -> Execution {
     }
     let unix_begin_ns = crate::interp::unix_now_ns();
     let mut handles: Vec<Option<std::thread::JoinHandle<()>>> = Vec::new();
-    for (i, a) in program.actors.iter().enumerate() {
-        let a = a.clone();
+    let spawn_actor = |i: usize| {
+        let a = program.actors[i].clone();
         let t = tables.clone();
-        handles.push(Some(
-            std::thread::Builder::new()
-                .name(format!("vx-{}", a.name))
-                .spawn(move || actor_main(i, a, t))
-                .unwrap(),
-        ));
+        std::thread::Builder::new().name(format!("vx-{}", a.name)).spawn(move || actor_main(i, a, t)).unwrap()
+    };
+    for (i, a) in program.actors.iter().enumerate() {
+        // an actor that follows another one gets its thread only after that one was joined
+        handles.push(if a.after_exit_of.is_none() { Some(spawn_actor(i)) } else { None });
     }
+    let mut spawned: Vec<bool> = program.actors.iter().map(|a| a.after_exit_of.is_none()).collect();
 
     let mut decisions = Vec::new();
     let mut choices = Vec::new();
@@ -252,11 +252,21 @@ pub fn run_once(program: &Program, prefix: &[u32]) -> Execution {
             w.actors[i].joined = true;
             w.push_log(None, Ev::Joined { actor: i });
         }
+        // spawn the actors whose predecessor's thread is gone now
+        for i in 0..program.actors.len() {
+            if !spawned[i] {
+                let pred = program.actors[i].after_exit_of.unwrap();
+                if s.world().actors[pred].joined {
+                    handles[i] = Some(spawn_actor(i));
+                    spawned[i] = true;
+                }
+            }
+        }
         let w = s.world();
         if w.actors.iter().all(|a| a.finished) {
             break;
         }
-        let mut enabled: Vec<usize> = (0..w.actors.len()).filter(|&i| w.enabled(i)).collect();
+        let mut enabled: Vec<usize> = (0..w.actors.len()).filter(|&i| spawned[i] && w.enabled(i)).collect();
         if enabled.is_empty() {
             outcome = Outcome::Deadlock;
             break;
